@@ -20,7 +20,7 @@ Proof. destruct a; [congruence | reflexivity]. Qed.
 
 (* ---------- the Lua VM's integer formatting ---------- *)
 Lemma digits_fuel_spec base : 2 <= base -> forall fuel n acc, 0 <= n < 2 ^ (Z.of_nat fuel + 1) ->
-  exists ds, digits_fuel (S fuel) base n acc = ds ++ acc /\ canon base ds n.
+  exists ds, digits_fuel (S fuel) base n acc = Some (ds ++ acc) /\ canon base ds n.
 Proof.
   intros Hb.
   assert (One : forall n, 0 <= n < base -> canon base [n] n).
@@ -43,11 +43,11 @@ Proof.
       intros _. rewrite hd_app_ne by exact C3. apply C5. lia.
 Qed.
 
-Lemma nat_digits_spec base n : 2 <= base -> 0 <= n < two64 -> canon base (nat_digits base n) n.
+Lemma nat_digits_spec base n : 2 <= base -> 0 <= n < two64 -> exists ds, nat_digits base n = Some ds /\ canon base ds n.
 Proof.
   intros Hb Hn. unfold nat_digits.
   destruct (digits_fuel_spec base Hb 63 n [] ltac:(change (2 ^ (Z.of_nat 63 + 1)) with two64; lia)) as (ds & A & C).
-  change 64%nat with (S 63). rewrite A, app_nil_r. exact C.
+  change 64%nat with (S 63). rewrite A, app_nil_r. exists ds. auto.
 Qed.
 
 (* the letter table of bint.lua agrees with the VM's digits *)
@@ -265,8 +265,10 @@ Proof.
     destruct Hs as (Hs & -> & Eu). rewrite Eu. rewrite wrap64_id by exact Hs.
     unfold lua_tostring_int, tobase_neg, tobase_val. cbn [negb andb]. fold s.
     destruct (s <? 0) eqn:En.
-    - exists (nat_digits 10 (- s)). split; [reflexivity|]. rewrite Z.abs_neq by lia. apply nat_digits_spec; [lia | i64].
-    - exists (nat_digits 10 s). split; [reflexivity|]. rewrite Z.abs_eq by lia. apply nat_digits_spec; [lia | i64]. }
+    - destruct (nat_digits_spec 10 (- s) ltac:(lia) ltac:(i64)) as (ds & Ed & Cd). rewrite Ed.
+      exists ds. split; [reflexivity|]. rewrite Z.abs_neq by lia. exact Cd.
+    - destruct (nat_digits_spec 10 s ltac:(lia) ltac:(i64)) as (ds & Ed & Cd). rewrite Ed.
+      exists ds. split; [reflexivity|]. rewrite Z.abs_eq by lia. exact Cd. }
   destruct (small && unsigned) eqn:CaseB.
   { (* string.format('%x') *)
     assert (Hs : in_i64 s /\ base = 16 /\ unsigned = true /\ 0 <= s).
@@ -277,8 +279,8 @@ Proof.
       split; [i64 | split; [exact C1 | split; [reflexivity | lia]]]. }
     destruct Hs as (Hs & -> & Eu & Hs0). rewrite Eu. rewrite wrap64_id by exact Hs.
     unfold lua_format_x, tobase_neg, tobase_val. cbn [negb andb app].
-    rewrite u64_small by i64. exists (nat_digits 16 s). split; [reflexivity|].
-    rewrite (sval_nonneg_uval x Hx Hs0). fold s. apply nat_digits_spec; [lia | i64]. }
+    rewrite u64_small by i64. destruct (nat_digits_spec 16 s ltac:(lia) ltac:(i64)) as (ds & Ed & Cd). rewrite Ed.
+    exists ds. split; [reflexivity|]. rewrite (sval_nonneg_uval x Hx Hs0). fold s. exact Cd. }
   clear CaseA CaseB small cond.
   (* the general path *)
   change (negb unsigned && (s <? 0)) with (tobase_neg x unsigned).
